@@ -121,6 +121,16 @@ func main() {
 		st.Close()
 	}
 	if run.Replay != "" {
+		var cc lsx.ConcCase
+		if err := run.ReadReplay(&cc); err == nil && (cc.Kind == "conc-get" || cc.Kind == "conc-put") {
+			if cc.Kind == "conc-get" {
+				lsx.ConcGets(run, cc)
+			} else {
+				lsx.ConcPuts(run, cc)
+			}
+			run.Finish()
+			return
+		}
 		var h lsx.Hist
 		if err := run.ReadReplay(&h); err != nil {
 			panic(err)
@@ -151,5 +161,13 @@ func main() {
 		g.St.Close()
 	}
 	_ = fmt.Sprint
+	// concurrency layer: overlapping request-mode Gets of one cached file (their updateGC goroutines
+	// queue on batchMu behind a large batched Put), and racing request puts under a file context
+	for i := 0; i < run.N(6, 60); i++ {
+		lsx.ConcGets(run, lsx.ConcCase{Kind: "conc-get", Seed: run.R.U64(), Threads: 2 + run.R.Intn(5), Rounds: run.N(5, 12)})
+	}
+	for i := 0; i < run.N(2, 20); i++ {
+		lsx.ConcPuts(run, lsx.ConcCase{Kind: "conc-put", Seed: run.R.U64(), Mode: 0, Ctx: true, Threads: 2 + run.R.Intn(4), Rounds: run.N(4, 10)})
+	}
 	run.Finish()
 }
